@@ -2,11 +2,11 @@ SPEC = {
     "id": "C28",
     "props_module": "NDB.Props.C28",
     "corr_modules": ["NDB.Corr.C28"],
-    "theorems": ["C28_layout", "C28_frame", "C28_cert_sound", "C28_preserves"],
+    "theorems": ["C28_layout", "C28_frame", "C28_cert_sound", "C28_preserves", "C28_mark_complete", "C28_preserves_typed"],
     "allowed_axioms": [],
     "harness_pkg": "hx_store",
     "harness_bin": "c28",
-    "n": {"quick": 260, "thorough": 4000},
+    "n": {"quick": 160, "thorough": 4000},
     "harness_timeout": {"quick": 600, "thorough": 3000},
     "trusted_base": [
         "Coq 8.16.1 kernel + vm_compute; coqchk in the thorough tier; axioms: none",
@@ -26,8 +26,9 @@ SPEC = {
         "text": "Proved for all page heaps and all page-reading programs: a program whose reads fall into the set of pages vacuum keeps computes the same result on the vacuumed file (C28_frame); "
                 "hence every reader that navigates from the roots is preserved once the kept set covers the pointer closure of the roots (C28_preserves). "
                 "The layouts agree (C28_layout: the segment meta page as vacuum.rs parses it = as csr.rs loads it, with constants regenerated from both files - this failed before fix 4137d10). "
-                "That the marking covers the closure is established per observed run by an executable certificate proved sound (C28_cert_sound), evaluated inside Coq on every generated database; "
-                "a universal proof of it for the marking function (under a typing hypothesis: no page used by two structures) is not done. "
+                "That the marking covers the closure (read_set ⊆ reachable) is proved for the marking function on every heap in which no page is used by two structures "
+                "(C28_mark_complete, hypothesis well_typed: a typing of pages consistent with roots and pointers; the hypothesis is exactly what C18's spill violates), hence C28_preserves_typed; "
+                "independently an executable certificate proved sound (C28_cert_sound) is evaluated inside Coq on every generated database, so well-typedness is not assumed for the observed runs. "
                 "Direct check: generated histories (compactions, indexes, vectors, big values, deletes, reopen) -> close -> vacuum -> reopen -> dump equal, then write+compact+reopen equal to the un-vacuumed twin.",
         "design_ref": "DESIGN.md §5 C28",
         "level_note": "Trusted: Coq kernel; model tied to vacuum.rs by sampled correspondence (kept page set compared exactly); rootedness of the Rust read paths observed, not proved.",
